@@ -32,6 +32,8 @@ TECHNIQUE += '; CFG must-pass of the per-shell correction'
 EXPLANATION += ' Added: (R7) in every basis-correction helper each iteration of the per-shell loop reaches the statement that corrects the coefficients (no continue/break path around it).'
 TECHNIQUE += '; symbolic evaluation of the norm expression'
 EXPLANATION += ' Added: (R8) the quantity whose deviation from 1 is compared with the threshold evaluates, on symbolic coefficients and overlap, to the quadratic form c^T S c for every orbital, the deviations are accumulated with max() and the verdict is `max deviation <= norm_threshold`.'
+TECHNIQUE += '; evaluation of the correction cascade with scripted predicate outcomes'
+EXPLANATION += " Added: (R9) the cascade as a whole is interpreted with a scripted norm predicate and stubbed correction helpers in ~20 scenarios (restricted / unrestricted x which attempt first passes x none x optional helpers not applicable): stored basis and coefficients are the ones that passed the check made with the caller's threshold, a warning iff corrected, LoadError when nothing helps."
 TRUSTED = ["CPython ast parser", "copy.deepcopy / attrs.evolve return new objects"]
 
 
@@ -335,6 +337,10 @@ def run(ctx):
                 ctx.ok("R7", f"{h.name}: every shell of the loop reaches the coefficient correction (line {mods[0].lineno})", f"{h.module.relpath}:{lp.lineno}")
     ctx.floor("R7", nfix, 4, "per-shell correction loops")
     check_norm_expression(ctx, pred)
+    ctx.rule("R9", "the cascade as a whole: first passing correction wins, stored data = checked data, warning iff corrected, LoadError otherwise (evaluated)", "orbitals are accepted with a basis / coefficients other than the ones validated, silently corrected, or a broken file is loaded")
+    from .c05_semantics import check_cascade_semantics
+
+    check_cascade_semantics(ctx, "R9", casc, pred, list({g.qualname: g for g in helpers}.values()))
 
 
 def check_norm_expression(ctx, pred):
